@@ -137,6 +137,8 @@ def main(argv):
     new, listed = [], []
     for o in failing:
         base = o.oid
+        if base.rsplit("@", 1)[-1] in sxlib.CONFIGS:
+            base = base.rsplit("@", 1)[0]          # the same construct seen under another build configuration
         if (pid, base) in known:
             listed.append((o, known[(pid, base)]))
         else:
